@@ -37,6 +37,15 @@ const FILTERS: &[&str] = &[
     r#"str_o != "x" xor ipa_o == 1.2.3.4"#,
     r#"any(keepeven1(l_num_m[*])[*] > 0)"#,
     r#"tally1((l_tru_m and l_tru_o)) >= 1"#,
+    // combinators whose deciding operand differs from one context to the next
+    r#"str_m contains " crawler/12.5" and http.host contains " crawler/12.5""#,
+    r#"str_m contains " crawler/12.x" or http.host contains " crawler/12.x""#,
+    r#"str_m contains " crawler/12.5" xor http.host contains " crawler/12.x" xor tru_m"#,
+    r#"tru_m and num_m > 0 and str_m != "" and not tru_o"#,
+    r#"tru_m or num_m > 0 or str_o == "x" or ipa_o == 1.2.3.4"#,
+    r#"num_m > 0 and tru_m or not tru_m and num_m <= 0 or str_m contains " crawler/12.5" and http.host == "ababc""#,
+    r#"any((l_tru_m and l_tru_o or not l_tru_m))"#,
+    r#"all(l_num_m[*] > 0) or any(l_str_m[*] == "a") and not all((l_tru_m))"#,
 ];
 
 fn long_value(matching: bool, k: usize) -> Vec<u8> {
@@ -127,10 +136,19 @@ enum Mode {
     SharedFilter,
     /// per-thread recompilation of the same text, shared contexts
     Recompile,
+    /// one shared filter executed at the same time on DIFFERENT contexts (thread
+    /// t is always t contexts ahead; even threads read the shared contexts, odd
+    /// threads their own clones), free-running between barriers
+    Skewed,
 }
 
 fn storm(run: &Run, eng: &Eng, w: &World, mode: Mode, threads: usize, rounds: usize, fam: &str, idx: u64) {
     let barrier = Arc::new(Barrier::new(threads));
+    let skew_reps: usize = match run.opts.variant.as_str() {
+        "miri" => 2,
+        "tsan" | "asan" | "dbg" | "valgrind" => 8,
+        _ => 48,
+    };
     let mismatches = AtomicU64::new(0);
     let execs = AtomicU64::new(0);
     let first_bad: std::sync::Mutex<Option<serde_json::Value>> = std::sync::Mutex::new(None);
@@ -139,7 +157,7 @@ fn storm(run: &Run, eng: &Eng, w: &World, mode: Mode, threads: usize, rounds: us
             let barrier = barrier.clone();
             let (mismatches, execs, first_bad) = (&mismatches, &execs, &first_bad);
             s.spawn(move || {
-                let own_ctxs: Vec<ExecutionContext<'static>> = if mode == Mode::SharedFilter {
+                let own_ctxs: Vec<ExecutionContext<'static>> = if mode == Mode::SharedFilter || (mode == Mode::Skewed && tid % 2 == 1) {
                     w.ctxs.iter().map(|c| c.clone_with(())).collect()
                 } else {
                     Vec::new()
@@ -157,6 +175,24 @@ fn storm(run: &Run, eng: &Eng, w: &World, mode: Mode, threads: usize, rounds: us
                             // everybody hits the same (filter, context) at the same time
                             if (ci % 4) == 0 {
                                 barrier.wait();
+                            }
+                            if mode == Mode::Skewed {
+                                let nctx = w.ctxs.len();
+                                for rep in 0..skew_reps {
+                                    let cj = (ci + tid + rep) % nctx;
+                                    let c = if tid % 2 == 1 { &own_ctxs[cj] } else { &w.ctxs[cj] };
+                                    let got = f.execute(c);
+                                    n += 1;
+                                    if got != Ok(w.baseline[fi][cj]) {
+                                        mismatches.fetch_add(1, Ordering::Relaxed);
+                                        let mut fb = first_bad.lock().unwrap();
+                                        if fb.is_none() {
+                                            *fb = Some(json!({"filter": w.filters[fi].0, "context": cj, "thread": tid, "round": round,
+                                                "sequential": w.baseline[fi][cj], "concurrent": format!("{:?}", got)}));
+                                        }
+                                    }
+                                }
+                                continue;
                             }
                             let c = if mode == Mode::SharedFilter { &own_ctxs[ci] } else { &w.ctxs[ci] };
                             let got = f.execute(c);
@@ -282,7 +318,7 @@ pub fn run(run: &Run) {
         12
     };
     let mut idx = 0u64;
-    for mode in [Mode::SharedBoth, Mode::SharedFilter, Mode::Recompile] {
+    for mode in [Mode::SharedBoth, Mode::SharedFilter, Mode::Recompile, Mode::Skewed] {
         for &t in &thread_counts {
             if run.opts.wants("storm") {
                 if let Some(only) = run.opts.only_index("storm") {
